@@ -108,7 +108,16 @@ type fsop struct {
 	idx  int // index into the trace
 }
 
+// rawCall: one mutating system call on the test directory (also failed ones, every write
+// separately) with the number of completed operations before and after it — the same
+// predicate as the killer's, so the two lists pair up by index.
+type rawCall struct {
+	name                string
+	opsBefore, opsAfter int
+}
+
 type mapped struct {
+	raw        []rawCall
 	ops        []fsop   // completed mutating operations, in order
 	killedAt   *sysc    // the system call the process died in (ret "?"), if any
 	ambiguous  bool     // a mutating call on the test files was unfinished/killed inside
@@ -140,8 +149,22 @@ func mapOps(tr []*sysc, dir, target string) *mapped {
 		return "t"
 	}
 	lastWriteFd := ""
+	sawExit := false
 	for i, s := range tr {
 		if !th[s.tid] {
+			continue
+		}
+		nBefore := len(m.ops)
+		isRaw := false
+		defer0 := func() {
+			if isRaw {
+				m.raw = append(m.raw, rawCall{name: s.name, opsBefore: nBefore, opsAfter: len(m.ops)})
+			}
+		}
+		if s.name == "exit_group" && !sawExit {
+			sawExit = true
+			isRaw = true
+			defer0()
 			continue
 		}
 		if s.ret == "?" && s.name != "exit_group" && s.name != "exit" {
@@ -184,8 +207,10 @@ func mapOps(tr []*sysc, dir, target string) *mapped {
 			if !wr {
 				continue
 			}
+			isRaw = true
 			if strings.Contains(fl, "O_APPEND") || strings.Contains(fl, "O_TMPFILE") || strings.Contains(fl, "O_DIRECTORY") {
 				m.unmodelled = append(m.unmodelled, s.name+"("+s.args+")")
+				defer0()
 				continue
 			}
 			mode := "0"
@@ -210,17 +235,18 @@ func mapOps(tr []*sysc, dir, target string) *mapped {
 			lastWriteFd = ""
 			add(text)
 		case "write", "pwrite64", "writev":
-			r, ok := fds[fdArg]
-			if !ok {
+			if _, ok := fds[fdArg]; !ok {
 				continue
 			}
-			_ = r
+			isRaw = true
 			if s.name != "write" {
 				m.unmodelled = append(m.unmodelled, s.name+" on a test file")
+				defer0()
 				continue
 			}
 			// consecutive writes on one descriptor are one f.Write (Go loops on short writes)
 			if lastWriteFd == fdArg && s.done && !strings.HasPrefix(s.ret, "-") {
+				defer0()
 				continue
 			}
 			if s.done && !strings.HasPrefix(s.ret, "-") {
@@ -231,6 +257,7 @@ func mapOps(tr []*sysc, dir, target string) *mapped {
 			if _, ok := fds[fdArg]; !ok {
 				continue
 			}
+			isRaw = true
 			lastWriteFd = ""
 			j := strings.LastIndex(s.args, ",")
 			add("cf:" + octMode(s.args[j+1:]))
@@ -238,16 +265,19 @@ func mapOps(tr []*sysc, dir, target string) *mapped {
 			if _, ok := fds[fdArg]; !ok {
 				continue
 			}
+			isRaw = true
 			lastWriteFd = ""
 			add("sy")
 		case "ftruncate", "fallocate", "fchown":
 			if _, ok := fds[fdArg]; ok {
+				isRaw = true
 				m.unmodelled = append(m.unmodelled, s.name+" on a test file")
 			}
 		case "close":
 			if _, ok := fds[fdArg]; !ok {
 				continue
 			}
+			isRaw = true
 			lastWriteFd = ""
 			if s.done {
 				delete(fds, fdArg)
@@ -257,6 +287,7 @@ func mapOps(tr []*sysc, dir, target string) *mapped {
 			if !touches {
 				continue
 			}
+			isRaw = true
 			lastWriteFd = ""
 			j := strings.LastIndex(s.args, ", 0")
 			mode := "0"
@@ -268,11 +299,13 @@ func mapOps(tr []*sysc, dir, target string) *mapped {
 			if !touches {
 				continue
 			}
+			isRaw = true
 			if strings.Contains(s.args, "AT_REMOVEDIR") {
 				// the rmdir attempt of os.Remove after a failed unlink
 				if s.done && !strings.HasPrefix(s.ret, "-") {
 					m.unmodelled = append(m.unmodelled, "rmdir in test directory")
 				}
+				defer0()
 				continue
 			}
 			lastWriteFd = ""
@@ -281,17 +314,21 @@ func mapOps(tr []*sysc, dir, target string) *mapped {
 			if !touches {
 				continue
 			}
+			isRaw = true
 			lastWriteFd = ""
 			if len(ps) != 2 || !inDir(ps[0]) || !inDir(ps[1]) || strings.Contains(s.args, "RENAME_EXCHANGE") || strings.Contains(s.args, "RENAME_NOREPLACE") {
 				m.unmodelled = append(m.unmodelled, s.name+"("+s.args+")")
+				defer0()
 				continue
 			}
 			add("rn:" + ref(ps[0]) + ":" + ref(ps[1]))
 		case "mkdirat", "mkdir", "linkat", "link", "symlinkat", "symlink", "truncate", "utimensat", "fchownat", "chown", "lchown", "mknodat", "rmdir", "setxattr", "lsetxattr":
 			if touches {
+				isRaw = true
 				m.unmodelled = append(m.unmodelled, s.name+"("+s.args+")")
 			}
 		}
+		defer0()
 	}
 	return m
 }
